@@ -500,6 +500,14 @@ Theorem C07_typed_operands_sum_example :
 Proof. exact typed_operands_sum_ex. Qed.
 Print Assumptions C07_typed_operands_sum_example.
 
+(** the failed-unification exit is reached by typed operands (the two summands of 2 + 3) *)
+Theorem C07_typed_failed_exit_example :
+  typed_operands ex_lty2 ex_G3 10 [ex_c1; ex_e] [[0]; [0]] /\
+  exists r, einsum_run bool_ops Bool.eqb false 10 [ex_c1; ex_e] [[0]; [0]] [] = Ok r /\ er_failed r = true /\
+            denote bool (er_raw r) [] = false.
+Proof. exact typed_operands_failed_ex. Qed.
+Print Assumptions C07_typed_failed_exit_example.
+
 (** the hypotheses about the semiring hold for the exact carriers of the check functions (Real / Log:
     [ereal]; Viterbi: [trop]; Bool) *)
 Theorem C07_typed_carriers :
